@@ -411,7 +411,7 @@ func c17Check(c C17Case, rec *evid.Rec) error {
 
 var c17Part = evid.Part[C17Case]{
 	Prop: "C17", Name: "kvmap", Quick: 1200, Thorough: 100000,
-	Rule: "history of ≤40 put/put-stream/put-vec/re-put/has/get/get-stream/peek operations (methods and feature-detecting package functions) over a table of keys that each have one content, on memstore, cidlink.Memory, fsstore with defaults and with custom escaping (hex, base64url) × sharding (r12, r122, r133, none); keys = CID binaries and hostile byte strings (NUL, '/', '..', '../../sentinel.txt', '.temp', 300-byte, high bytes, shared shard suffixes, prefixes); model map + full scan at the end; for fsstore the tree outside the base directory is compared after every operation and every path handed to the OS (verif hook) must lie under the base; non-trivial = ≥2 distinct keys, a read after a put, and for fsstore a hostile key; distinct by the whole history",
+	Rule: "history of ≤40 put/put-stream/put-vec/re-put/has/get/get-stream/peek operations (methods and feature-detecting package functions) over a table of keys that each have one content, on memstore, cidlink.Memory, fsstore with defaults and with custom escaping (hex, base64url) × sharding (r12, r122, r133, none); keys = CID binaries and hostile byte strings (NUL, '/', '..', '../../sentinel.txt', '.temp', 300-byte, high bytes, shared shard suffixes, prefixes, and near neighbours of other keys: one more / one changed trailing byte, equal for the first 31..129 bytes and differing after); model map + full scan at the end; for fsstore the tree outside the base directory is compared after every operation and every path handed to the OS (verif hook) must lie under the base; non-trivial = ≥2 distinct keys, a read after a put, and for fsstore a hostile key; distinct by the whole history",
 	Gen: func(t *rapid.T) C17Case {
 		c := C17Case{Store: rapid.SampledFrom([]string{"memstore", "cidmemory", "fsstore", "fsstore", "fsstore"}).Draw(t, "store")}
 		if c.Store == "fsstore" && rapid.Bool().Draw(t, "custom") {
@@ -424,6 +424,24 @@ var c17Part = evid.Part[C17Case]{
 			var k string
 			if c.Store == "cidmemory" {
 				k = val.MakeCidV1(0x55, 0x12, rapid.SliceOfN(rapid.Byte(), 32, 32).Draw(t, "digest"))
+			} else if len(c.Keys) > 0 && rapid.IntRange(0, 3).Draw(t, "derived") == 0 {
+				// a near neighbour of an existing key: keys that differ only late (after a long shared
+				// prefix, around power-of-two lengths) or by one trailing byte must not alias
+				base, _ := val.UnTxt(c.Keys[rapid.IntRange(0, len(c.Keys)-1).Draw(t, "base")])
+				switch rapid.IntRange(0, 2).Draw(t, "derive") {
+				case 0:
+					k = base + string(rapid.SampledFrom([]byte{'a', 0, '/', 0xff, '='}).Draw(t, "extra"))
+				case 1:
+					b := []byte(base)
+					b[len(b)-1] ^= byte(rapid.SampledFrom([]int{1, 0x20, 0x80, 0xff}).Draw(t, "flip"))
+					k = string(b)
+				default:
+					l := rapid.SampledFrom([]int{31, 32, 33, 63, 64, 65, 100, 127, 128, 129}).Draw(t, "padlen")
+					for len(base) < l {
+						base += "p"
+					}
+					k = base[:l] + rapid.SampledFrom([]string{"", "a", "b", "ab", "ba"}).Draw(t, "tail")
+				}
 			} else {
 				switch rapid.IntRange(0, 3).Draw(t, "keykind") {
 				case 0:
